@@ -88,11 +88,19 @@ func extractC14() {
 				if !ok {
 					return true
 				}
-				if sel.Sel.Name == "SetAggregateErrors" {
-					aggregate = true
-				}
 				if recv.Name != "outer" {
 					return true
+				}
+				// outer.SetAggregateErrors(<literal>): the last call wins, as at run time; anything but a
+				// literal true/false is reported as false plus a marker in requestOrder (the model then
+				// runs Err.unknown and every stack theorem stops checking).
+				if sel.Sel.Name == "SetAggregateErrors" {
+					if id, ok := s.Args[0].(*ast.Ident); ok && (id.Name == "true" || id.Name == "false") {
+						aggregate = id.Name == "true"
+					} else {
+						aggregate = false
+						reqOrder = append(reqOrder, "?SetAggregateErrors-non-literal:"+src(s.Args[0]))
+					}
 				}
 				switch sel.Sel.Name {
 				case "AddRequestModifier":
